@@ -25,22 +25,25 @@ Places == {"same", "other_scope", "outside", "other_task"}
 STREAM == 50          \* id standing for the stream's own scope / task group
 NOCTX == 93  DEFAULT == 91
 
-VARIABLES place, n, ending, nested, slow, kind,   \* scenario, chosen in Init (slow = k > 0: the generator suspends before item k - 1)
+VARIABLES place, n, ending, nested, slow, kind, gsp,   \* scenario, chosen in Init (slow = k > 0: the generator suspends before
+                                                       \* item k - 1; gsp: it spawns a task through the context before its first item)
           pos,        \* items produced so far
-          sst,        \* "fresh" | "open" | "pulling" | "ended" | "closed" | "cancelled"
+          sst,        \* "fresh" | "open" | "pulling" | "draining" | "ended" | "closed" | "cancelled"
           s1done,     \* the creator scope's completion callback ran (it waits for the stream's scope)
           called,     \* the source has been called (on the first pull)
+          sp,         \* the task the generator spawned: "none" | "run" | "done" | "cancelled"
           nops, obs
 
-vars == <<place, n, ending, nested, slow, kind, pos, sst, s1done, called, nops, obs>>
-scen == <<place, n, ending, nested, slow, kind>>
+vars == <<place, n, ending, nested, slow, kind, gsp, pos, sst, s1done, called, sp, nops, obs>>
+scen == <<place, n, ending, nested, slow, kind, gsp>>
 
 (* what the consumer sees of its own context: <<state A, metrics scope, task group>> *)
 BUSY == 77
-Busy == <<BUSY, BUSY, BUSY>>      \* the consumer task is inside __anext__: it cannot be probed
+Busy == <<BUSY, BUSY, BUSY>>      \* the consumer task is inside __anext__ / aclose: it cannot be probed
 Own == CASE place = "same" -> <<1, 1, 1>>
          [] place = "other_scope" -> <<2, 2, 2>>
          [] OTHER -> <<NOCTX, 0, 0>>
+Cons(blocked) == IF blocked /\ place # "other_task" THEN Busy ELSE Own
 
 Init == /\ place \in Places /\ n \in 0..MaxItems /\ ending \in {"normal", "error"} /\ nested \in BOOLEAN
         /\ (nested => n >= 2) /\ slow \in 0..n
@@ -48,8 +51,9 @@ Init == /\ place \in Places /\ n \in 0..MaxItems /\ ending \in {"normal", "error
         \* called and returns the generator ("factory": it reports what it saw when called), or one that raises when called
         /\ kind \in {"agen", "factory", "raising"}
         /\ (kind = "raising" => n = 0 /\ ~nested /\ slow = 0 /\ ending = "normal")
-        /\ pos = 0 /\ sst = "fresh" /\ s1done = FALSE /\ called = FALSE /\ nops = 0
-        /\ obs = [res |-> <<"none", 0, 0, 0, 0>>, cons |-> Own, s1 |-> FALSE, call |-> <<0, 0, 0>>]
+        /\ gsp \in BOOLEAN /\ (gsp => n >= 1 /\ kind = "agen")
+        /\ pos = 0 /\ sst = "fresh" /\ s1done = FALSE /\ called = FALSE /\ sp = "none" /\ nops = 0
+        /\ obs = [res |-> <<"none", 0, 0, 0, 0>>, cons |-> Own, s1 |-> FALSE, call |-> <<0, 0, 0>>, sp |-> "none"]
 
 InNested(i) == nested /\ i = 1          \* the generator yields its 2nd item from inside a nested scope (A = 3)
 (* an item reports what the generator body saw when it produced it: <<"item", index, state A, metrics scope, task group>>
@@ -59,82 +63,103 @@ Completes == place # "same"              \* S1 was left before consumption start
 
 (* what the source saw when it was called: it is called within the stream's own scope *)
 CallView(c) == IF kind = "factory" /\ c THEN (IF Bug = "call_outside_scope" THEN <<1, 1, 1>> ELSE <<1, STREAM, STREAM>>) ELSE <<0, 0, 0>>
-Bound == nops < MaxItems + 3
+Bound == nops < MaxItems + 4
 None5(k) == <<k, 0, 0, 0, 0>>
+O(res, blocked, s1, c, spv) == [res |-> res, cons |-> Cons(blocked), s1 |-> s1, call |-> CallView(c), sp |-> spv]
+(* leaving the stream's scope with a failure in flight (the generator's error, a close, a cancellation) cancels the task
+   spawned into it; a normal end waits for it *)
+Aborted(x) == IF x = "run" /\ Bug # "close_awaits_spawned" THEN "cancelled" ELSE x
+(* the task is spawned right before the first item is produced *)
+SpawnAt(p) == IF gsp /\ p = 0 THEN "run" ELSE sp
+EndRes == IF ending = "error" /\ Bug # "swallow_error" THEN <<"err", 0, 0, 0, 0>> ELSE <<"stop", 0, 0, 0, 0>>
 
 Pull ==
   /\ Bound /\ nops' = nops + 1 /\ UNCHANGED scen
-  /\ sst # "pulling"
+  /\ sst \notin {"pulling", "draining"}
   /\ called' = (called \/ sst = "fresh")
   /\ IF sst = "fresh" /\ kind = "raising"
        THEN \* calling the source fails: that is how the stream ends; its scope was entered and is left
-            /\ sst' = "ended" /\ pos' = pos /\ s1done' = Completes
-            /\ obs' = [res |-> <<"err", 0, 0, 0, 0>>, cons |-> Own, s1 |-> s1done', call |-> CallView(called')]
+            /\ sst' = "ended" /\ pos' = pos /\ s1done' = Completes /\ sp' = sp
+            /\ obs' = O(<<"err", 0, 0, 0, 0>>, FALSE, s1done', called', sp')
        ELSE IF sst \in {"fresh", "open"} /\ pos < n /\ slow = pos + 1
        THEN \* the generator suspends before this item: the pulling task waits inside __anext__
-            /\ sst' = "pulling" /\ UNCHANGED <<pos, s1done>>
-            /\ obs' = [res |-> None5("pending"), cons |-> IF place = "other_task" THEN Own ELSE Busy, s1 |-> s1done,
-                       call |-> CallView(called')]
+            /\ sst' = "pulling" /\ UNCHANGED <<pos, s1done>> /\ sp' = SpawnAt(pos)
+            /\ obs' = O(None5("pending"), TRUE, s1done, called', sp')
        ELSE IF sst \in {"fresh", "open"} /\ pos < n
-       THEN /\ pos' = pos + 1 /\ sst' = "open" /\ s1done' = s1done
-            /\ obs' = [res |-> IF Bug = "reorder" /\ n = 2 THEN ItemOf(1 - pos) ELSE ItemOf(pos), cons |-> Own, s1 |-> s1done,
-                       call |-> CallView(called')]
+       THEN /\ pos' = pos + 1 /\ sst' = "open" /\ s1done' = s1done /\ sp' = SpawnAt(pos)
+            /\ obs' = O(IF Bug = "reorder" /\ n = 2 THEN ItemOf(1 - pos) ELSE ItemOf(pos), FALSE, s1done, called', sp')
+       ELSE IF sst \in {"fresh", "open"} /\ sp = "run" /\ ending = "normal"
+         THEN \* exhausted, but the stream's scope waits for the task spawned into it: the pulling task waits with it
+              /\ sst' = "draining" /\ UNCHANGED <<pos, s1done, sp>>
+              /\ obs' = O(None5("pending"), TRUE, s1done, called', sp)
        ELSE IF sst \in {"fresh", "open"}
-         THEN /\ sst' = "ended" /\ pos' = pos
+         THEN /\ sst' = "ended" /\ pos' = pos /\ sp' = Aborted(sp)
               /\ s1done' = IF Bug = "never_completes" THEN s1done ELSE Completes
-              /\ obs' = [res |-> IF ending = "error" /\ Bug # "swallow_error" THEN <<"err", 0, 0, 0, 0>> ELSE <<"stop", 0, 0, 0, 0>>,
-                         cons |-> Own, s1 |-> s1done', call |-> CallView(called')]
-         ELSE /\ UNCHANGED <<pos, sst, s1done>>      \* exhausted or closed: plain end of iteration
-              /\ obs' = [res |-> <<"stop", 0, 0, 0, 0>>, cons |-> Own, s1 |-> s1done, call |-> CallView(called)]
+              /\ obs' = O(EndRes, FALSE, s1done', called', sp')
+         ELSE /\ UNCHANGED <<pos, sst, s1done, sp>>      \* exhausted or closed: plain end of iteration
+              /\ obs' = O(<<"stop", 0, 0, 0, 0>>, FALSE, s1done, called, sp)
 
 (* the generator goes on and yields the item it was suspended before *)
 Release ==
   /\ sst = "pulling" /\ nops' = nops + 1 /\ UNCHANGED scen
-  /\ pos' = pos + 1 /\ sst' = "open" /\ s1done' = s1done /\ called' = called
-  /\ obs' = [res |-> ItemOf(pos), cons |-> Own, s1 |-> s1done, call |-> CallView(called)]
+  /\ pos' = pos + 1 /\ sst' = "open" /\ s1done' = s1done /\ called' = called /\ sp' = sp
+  /\ obs' = O(ItemOf(pos), FALSE, s1done, called, sp)
 
-(* the pulling task is cancelled while the generator is suspended: the cancellation goes through the generator body
-   (which does not handle it), the stream's scope is left and completes, the task sees the cancellation and its own
-   context again; the stream is finished *)
+(* the task the generator spawned ends; a stream that was only waiting for it is over then *)
+EndSpawned ==
+  /\ sp = "run" /\ nops' = nops + 1 /\ UNCHANGED <<scen, pos, called>>
+  /\ sp' = "done"
+  /\ IF sst = "draining"
+       THEN /\ sst' = "ended" /\ s1done' = Completes
+            /\ obs' = O(<<"stop", 0, 0, 0, 0>>, FALSE, s1done', called, sp')
+       ELSE /\ UNCHANGED <<sst, s1done>>
+            /\ obs' = [obs EXCEPT !.sp = "done"]
+
+(* the pulling task is cancelled while the generator is suspended (or while the exhausted stream waits for its spawned
+   task): the cancellation goes through the generator body (which does not handle it), the stream's scope is left - its
+   spawned task cancelled - and completes, the task sees the cancellation and its own context again; the stream is finished *)
 CancelPull ==
-  /\ sst = "pulling" /\ nops' = nops + 1 /\ UNCHANGED <<scen, pos>>
+  /\ sst \in {"pulling", "draining"} /\ nops' = nops + 1 /\ UNCHANGED <<scen, pos>>
   /\ sst' = "cancelled" /\ s1done' = IF Bug = "cancel_leaks_scope" THEN s1done ELSE Completes
-  /\ called' = called
-  /\ obs' = [res |-> None5("cancelled"), cons |-> Own, s1 |-> s1done', call |-> CallView(called)]
+  /\ called' = called /\ sp' = Aborted(sp)
+  /\ obs' = O(None5("cancelled"), FALSE, s1done', called, sp')
 
 (* aclose(): ends a stream that was not exhausted; closing a stream that already ended - exhausted, failed, cancelled,
    closed before - is allowed (contextlib.aclosing always does it) and changes nothing *)
 Close ==
-  /\ Bound /\ sst # "pulling"
+  /\ Bound /\ sst \notin {"pulling", "draining"}
   /\ sst' = IF sst \in {"fresh", "open"} THEN "closed" ELSE sst
   /\ nops' = nops + 1 /\ UNCHANGED <<scen, pos>>
   /\ s1done' = IF sst \in {"fresh", "open"} THEN Completes ELSE s1done
-  /\ called' = called
-  /\ obs' = [res |-> <<"closed", 0, 0, 0, 0>>, cons |-> Own, s1 |-> s1done', call |-> CallView(called)]
+  /\ called' = called /\ sp' = IF sst \in {"fresh", "open"} THEN Aborted(sp) ELSE sp
+  /\ obs' = O(<<"closed", 0, 0, 0, 0>>, FALSE, s1done', called, sp')
 
 (* the consumer just stops iterating (break) and looks at its own context again *)
 Abandon ==
   /\ Bound /\ sst = "open" /\ nops' = nops + 1
-  /\ UNCHANGED <<scen, pos, sst, s1done>>
+  /\ UNCHANGED <<scen, pos, sst, s1done, sp>>
   /\ called' = called
-  /\ obs' = [res |-> <<"abandoned", 0, 0, 0, 0>>, cons |-> Own, s1 |-> s1done, call |-> CallView(called)]
+  /\ obs' = O(<<"abandoned", 0, 0, 0, 0>>, FALSE, s1done, called, sp)
 
-Next == Pull \/ Release \/ CancelPull \/ Close \/ Abandon
+Next == Pull \/ Release \/ EndSpawned \/ CancelPull \/ Close \/ Abandon
 Spec == Init /\ [][Next]_vars
 
 -----------------------------------------------------------------------------
-TypeOK == sst \in {"fresh", "open", "pulling", "ended", "closed", "cancelled"} /\ pos \in 0..MaxItems
+TypeOK == sst \in {"fresh", "open", "pulling", "draining", "ended", "closed", "cancelled"} /\ pos \in 0..MaxItems
 
 (* C11: exactly the generator's items, in order, then its normal end or its exception *)
 ItemsInOrder == /\ (obs.res[1] = "item" => obs.res[2] = pos - 1)
                 /\ (obs.res[1] = "err" => (ending = "error" /\ pos = n) \/ kind = "raising")
                 /\ (obs.res[1] = "stop" /\ sst = "ended" => pos = n \/ kind = "raising")
-EndsWithError == sst = "ended" /\ ending = "error" /\ obs.res[1] \in {"err", "stop"} /\ nops = n + 1 + (IF slow > 0 THEN 1 ELSE 0) => obs.res[1] = "err"
+(* (stated on the step that ends the stream) *)
+EndsWithError == [][(sst \in {"fresh", "open"} /\ sst' = "ended" /\ ending = "error" /\ kind # "raising" /\ pos = n) => obs'.res[1] = "err"]_vars
 (* C11: the generator body observes the state current where the stream was created *)
 GenSeesCreation == obs.res[1] = "item" => (obs.res[3] = (IF InNested(obs.res[2]) THEN 3 ELSE 1) /\ obs.res[5] = STREAM)
 CallSeesStreamScope == obs.call \in {<<0, 0, 0>>, <<1, STREAM, STREAM>>}
+(* every task spawned into the stream's scope has finished once that scope has been left *)
+SpawnedSettled == sst \in {"ended", "closed", "cancelled"} => sp # "run"
 (* C11: the consumer's own state, metrics scope and task group are unaffected *)
-ConsumerIntact == obs.cons = (IF sst = "pulling" /\ place # "other_task" THEN Busy ELSE Own)
+ConsumerIntact == obs.cons = Cons(sst \in {"pulling", "draining"})
 (* C11: the stream's scope completes when the stream is exhausted or closed *)
 StreamScopeCompletes == sst \in {"ended", "closed", "cancelled"} /\ Completes => s1done
 =============================================================================
